@@ -21,8 +21,8 @@ from detsim.runner import Discard
 
 PROP = "C06"
 LEVEL = "exploration"
-RUNS = {"quick": 1200, "thorough": 40000}
-BUDGET_S = {"quick": 75, "thorough": 1200}
+RUNS = {"quick": 4000, "thorough": 60000}
+BUDGET_S = {"quick": 90, "thorough": 1500}
 RULE = ("each evaluation is one stored variant of a generated chart read back once (one order x "
         "newline x BOM x unknown-section placement x access path x I/O tape). Distinct = distinct "
         "(bytes, access path, tape) digest; non-trivial = the variant differs from the canonical "
